@@ -121,9 +121,8 @@ type solveOpts struct {
 // discharge runs the portfolio on one obligation.
 func (v *vc) discharge(ob *obligation, opts solveOpts, workDir string) {
 	text := v.smtFor(ob, false, nil)
-	if opts.seed != 0 {
-		text = strings.Replace(text, "(set-logic ALL)", fmt.Sprintf("(set-logic ALL)\n(set-option :random-seed %d)", opts.seed%100000), 1)
-	}
+	// VERIF_SEED is recorded in the evidence but deliberately NOT passed to the solvers: a verdict must not
+	// depend on the solver's random seed (obligations are registered only if they discharge deterministically).
 	ob.smtSize = len(text)
 	fname := sanitize(ob.name) + ".smt2"
 	file := filepath.Join(workDir, fname)
@@ -183,11 +182,22 @@ func (v *vc) discharge(ob *obligation, opts solveOpts, workDir string) {
 			return
 		}
 	}
-	for i, s := range solvers {
-		t := opts.timeoutS
-		if i > 0 && t > 10 && !opts.twoSolvers {
-			t = opts.timeoutS
+	order := solvers
+	if h, ok := solverHints[ob.name]; ok && !opts.twoSolvers {
+		// try the back end that discharged this obligation last time first (pure scheduling: any back end's
+		// `unsat` is accepted, and all are still tried if the hinted one does not answer)
+		var first, rest []solverSpec
+		for _, s := range solvers {
+			if strings.HasPrefix(h, s.name) {
+				first = append(first, s)
+			} else {
+				rest = append(rest, s)
+			}
 		}
+		order = append(first, rest...)
+	}
+	for _, s := range order {
+		t := opts.timeoutS
 		status, out, ms := runSolver(s, file, t)
 		total += ms
 		if status == "error" {
